@@ -37,6 +37,16 @@ and "every input-type/remap combination of the shipped methods":
       every method alone.  Model and oracle get the per-file maps from the HARNESS's digest of the same FASTA
       (props.C08.spec + props.C09.db_records/listing, rule table written down in this file).
 
+  {"run": {..., "via": "pipeline", "methods": ["picked_protein_group_mq_input"], "digest": [one set per evidence file]}}
+      the PIPELINE entry point pipeline.pipeline.run_picked_group_fdr(evidence_files, out, fasta_files,
+      [DigestionParams ...], do_quant=False, ...) -- the caller's parameter OBJECTS are rendered to arguments by
+      digestion_params.digestion_params_list_to_arg_list and parsed back by the tool; 3-4 MaxQuant evidence files whose
+      parameters are partly repeated (trypsin, trypsin, lys-c).  Judged like every run: each file through its own digest.
+  {"glue": {"params": [{"enzyme","mode","min","max","mc","special","decoys"}..], "flag": bool}}
+      digestion_params_list_to_arg_list on 1-4 DigestionParams objects -> argparse (add_digestion_arguments) ->
+      get_digestion_params_list, vs Model/C10Glue.lean (toArgv, throughGlue); oracle: as many parameter sets come back
+      as went in, with the same values, in the same order.
+
 Numbers: PEP cells are written with repr(float) and re-read by float() (csv) or pandas' C parser (DIA-NN;
 its agreement with float() on the literal grid is asserted once per process).  FragPipe probabilities are
 (1024-k)/1024 so `1 - p` is exact and `1 - p + 1e-16` is the correctly rounded image of the model's exact
@@ -231,6 +241,10 @@ def render(case, d):
                 [r["pep"], r["prot"][0], _razor_cell(r), _cell(r["score"]), "10", "E1", str(i)]
                 for i, r in enumerate(rows)
             ]
+            if case.get("quant"):
+                # pipeline.run_picked_group_fdr always passes --do_quant: the columns the quantification reads
+                hdr += ["Charge", "Intensity", "Raw file"]
+                out = [o + ["2", "1000000", "raw%d" % n] for o in out]
             hdr, out = _shuffled(hdr, out, case.get("colseed", 0) + n)
         elif fmt == "native":
             hdr = ["PSMId", "score", "q-value", "posterior_error_prob", "peptide", "proteinIds"]
@@ -806,7 +820,16 @@ def record_entry(job):
     evidence.parse_evidence_files = recorder
     try:
         os.chdir(cwd)
-        if job["how"] == "cli":
+        if job["how"] == "pipeline":
+            # the pipeline's own entry point: parameter OBJECTS in, the glue renders them for the tool
+            from picked_group_fdr.digestion_params import DigestionParams
+            from picked_group_fdr.pipeline import pipeline
+
+            params = [DigestionParams(enzyme=p["enzyme"], digestion=p["mode"], min_length=p["min"], max_length=p["max"],
+                                      cleavages=p["mc"], special_aas=p["special"]) for p in job["digest"]]
+            pipeline.run_picked_group_fdr(list(job["evidence"]), os.path.join(cwd, "proteinGroups.txt"), list(job["fasta"]),
+                                          params, False, 1, True)
+        elif job["how"] == "cli":
             import runpy
 
             sys.argv = ["picked_group_fdr"] + list(job["argv"])
@@ -942,7 +965,7 @@ def run_scenario(run, submit=None):
             inp = run["inputs"][fam]
             m = next(m for m in run["methods"] if family_of(method_score_type(m)) == fam)
             paths = render({"method": m, "mokapot": inp.get("mokapot", False), "colseed": inp.get("colseed", 0), "files": inp["files"],
-                            "names": inp.get("names", "numbered")}, os.path.join(ind, fam))
+                            "names": inp.get("names", "numbered"), "quant": run.get("via") == "pipeline"}, os.path.join(ind, fam))
             argv_in += [FAMILY_FLAG[fam], *paths]
         if run.get("fasta"):
             fps = []
@@ -967,6 +990,12 @@ def run_scenario(run, submit=None):
             argv_in += ["--peptide_protein_map", *mps]
         jobs = []
         orders = run_orders(run)
+        if run.get("via") == "pipeline":
+            cwd = os.path.join(d, "fwd")
+            os.mkdir(cwd)
+            jobs.append({"how": "pipeline", "cwd": cwd, "evidence": argv_in[1 : 1 + len(run["inputs"]["maxquant"]["files"])],
+                         "fasta": fps, "digest": run["digest"]})
+            orders = []
         for name, ms in orders:
             cwd = os.path.join(d, name)
             os.mkdir(cwd)
@@ -979,7 +1008,7 @@ def run_scenario(run, submit=None):
             results = [lib._safe(run_job, j) for j in jobs]
         results = [r if "calls" in r else dict(r, calls=[]) for r in results]
         out = {"fwd": results[0]}
-        if len(orders) > 1:
+        if len(results) > 1:
             out["rev"] = results[1]
             out["alone"] = results[2:]
         return out
@@ -1027,6 +1056,40 @@ def run_shared(sh):
         finally:
             shutil.rmtree(d, ignore_errors=True)
     return {"shared": outs}
+
+
+def _param_attrs(o):
+    """the attributes of a DigestionParams object, as Driver/C10.lean ofParamsC10 writes them"""
+    return {"enzyme": o.enzyme, "digestion": o.digestion, "min": o.min_length, "max": o.max_length, "mc": o.cleavages,
+            "special": "".join(o.special_aas), "met": bool(o.methionine_cleavage), "db": o.db, "hash": bool(o.use_hash_key)}
+
+
+def run_glue(g):
+    """digestion_params_list_to_arg_list on one DigestionParams object per evidence file, the tokens through argparse
+    (add_digestion_arguments, as every tool of the package sets its parser up) and get_digestion_params_list"""
+    import argparse
+
+    from picked_group_fdr import digestion_params as dp
+
+    objs = [dp.DigestionParams(p["enzyme"], p["mode"], p["min"], p["max"], p["mc"], p["special"], bool(p.get("decoys")))
+            for p in g["params"]]
+    given = [_param_attrs(o) for o in objs]
+    argv = list(dp.digestion_params_list_to_arg_list(objs))
+    out = {"given": given, "argv": argv}
+    apars = argparse.ArgumentParser()
+    dp.add_digestion_arguments(apars)
+    try:
+        args = apars.parse_args(argv + (["--fasta_contains_decoys"] if g.get("flag") else []))
+    except SystemExit as e:
+        out["parsed"] = {"exc": "SystemExit", "msg": "argparse refused the rendered arguments (exit code %s)" % (e.code,)}
+        return out
+    try:
+        out["parsed"] = [_param_attrs(o) for o in dp.get_digestion_params_list(args)]
+    except ValueError as e:
+        if "unequal length" not in str(e):
+            raise
+        out["parsed"] = {"err": "unequal_length"}
+    return out
 
 
 def py_strops(s):
@@ -1080,7 +1143,12 @@ class P(Prop):
         "PSM peptides being substrings of targets, of decoys, of both, peptides contained in no sequence whose first six residues "
         "occur in exactly one / several sequences, peptides of fewer than / exactly six residues, longer than the window, all "
         "with modification spellings; 18 % of the digestion parameter sets of entry-point runs are --enzyme no_enzyme / "
-        "--digestion none; 3 % of the cases compare digest.get_proteins on such a pair directly"
+        "--digestion none; 3 % of the cases compare digest.get_proteins on such a pair directly. The pipeline glue: 4 % of the "
+        "cases hand digestion_params_list_to_arg_list 1-4 DigestionParams objects (a base set with 1-3 fields varied, the values of "
+        "a varied field all equal / all different / partly repeated such as trypsin, trypsin, lys-c; special residues none / empty, "
+        "no_enzyme, objects built with fasta_contains_decoys, the flag next to the arguments) and parse the tokens back with argparse "
+        "+ get_digestion_params_list; a quarter of the in-process entry-point runs go through pipeline.pipeline.run_picked_group_fdr "
+        "(1-4, mostly 3-4, MaxQuant evidence files with quantification columns, one parameter object per file, values partly repeated)"
     )
     assumptions = [
         "csv.reader/float() re-read repr(float) cells exactly; pandas' C float parser agrees with float() on the 12 PEP literals (asserted per process)",
@@ -1089,6 +1157,7 @@ class P(Prop):
         "pandas reads `inf`, `-inf`, `nan` and the empty cell of a numeric PEP column as floats, and delivers the whole column as text (missing cells stay NaN) once one cell is no number (asserted per process)",
         "a PEP of -inf (cell `-inf` outside FragPipe / Sage, `inf` under FragPipe) is outside the model (PepInfo.pep is a rational) and not generated",
         "file sets with a refused PEP cell are generated for the direct and shared-list calls of parse_evidence_files only, not for runs of the entry point",
+        "pipeline glue: argparse (nargs='+', type=int) turning the rendered tokens into the option lists is exercised, not modelled (the model's argument lists hold the numbers); the db attribute of a parameter object is not rendered and not judged by the oracle (compared with the model: the --fasta_contains_decoys flag decides it); run_picked_group_fdr always quantifies, the generated evidence carries constant Charge / Intensity / Raw file columns",
         "non-specific digests: generated databases have distinct identifiers; a substring of a database sequence whose length lies outside the digest's window is compared with the model but not judged by the oracle beyond 'only sequences containing it' (the property text does not say whether the digest knows it)",
     ]
     trusted_extra = ["pandas.read_csv / csv.reader reading of the generated files (validated only by the correspondence)"]
@@ -1352,7 +1421,11 @@ class P(Prop):
         if u < 0.08:
             return {"shared": self.gen_shared(rng)}
         if u < 0.08 + RUN_SHARE:
+            if rng.random() < 0.25:  # the pipeline's entry point: parameter objects through the glue
+                return {"run": self.gen_pipeline_run(rng)}
             return {"run": self.gen_run(rng, "inproc")}
+        if u > 0.96:
+            return {"glue": self.gen_glue(rng)}
         if u < 0.08 + RUN_SHARE + 0.03:
             # digest.get_proteins itself on the pair the real code builds for a non-specific search
             m = self._gen_hash_spec(rng)
@@ -1499,6 +1572,115 @@ class P(Prop):
             dg[1][k] = next(v for v in opts[k] if v != dg[0][k])
         return dg
 
+    def _run_bares(self, rng, run):
+        """PSM peptides for a run whose maps come from --fasta: drawn from the union of the per-file digests (the
+        harness's own), peptides known to some files' digests only preferred, a decoy peptide, an unknown one"""
+        own = own_digest_maps(run)
+        maps = [map_view(m) for m in own]
+        known = [m.known(16) for m in maps]
+        union = sorted(set().union(*known)) if maps else []
+        short = [k for k in union if len(k) <= 16] or union
+        diff = [k for k in short if not all(k in kn for kn in known)]
+        common = [k for k in short if all(k in kn for kn in known)]
+        decoy = [k for k in short if any(o_decoy_list(m.get(k)) for m, kn in zip(maps, known) if k in kn)]
+        bares = []
+        for pool, k in ((diff, rng.choice([1, 2, 3])), (common, rng.choice([1, 2])), (decoy, 1)):
+            for b in rng.sample(pool, min(len(pool), k)):
+                if b not in bares:
+                    bares.append(b)
+        if any(is_hash(m) for m in own):
+            # peptides contained in no sequence whose first six residues occur in the database, short ones, ...
+            hp = self._hash_pool(rng, [m for m in own if is_hash(m)])
+            pick = [q for t, q in hp if t.startswith("unknown_")]
+            pick = rng.sample(pick, min(len(pick), rng.choice([1, 2])))
+            pick += [q for t, q in rng.sample(hp, min(len(hp), 2))]
+            for b in pick:
+                if b not in bares:
+                    bares.append(b)
+        unknown = [b for b in BARE + ["NAQQKAAAAK"] if b not in union]
+        if unknown and (rng.random() < 0.5 or len(bares) < 2):
+            bares.append(rng.choice(unknown))
+        while len(bares) < 2:
+            bares.append(rng.choice([b for b in BARE if b not in bares]))
+        return bares
+
+    # the glue of the pipeline entry points ----------------------------------------------------------
+    GLUE_OPTS = {"enzyme": ["trypsin", "lys-c", "trypsinp", "arg-c"], "mc": [2, 0, 1, 3], "min": [7, 5, 6, 10],
+                 "max": [60, 15, 10, 30], "special": ["KR", "none", "K", "R"], "mode": ["full", "semi", "none"]}
+    GLUE_PATTERNS = {1: [[0]], 2: [[0, 0], [0, 1]],
+                     3: [[0, 0, 1], [0, 1, 0], [0, 1, 1], [0, 0, 0], [0, 1, 2]],
+                     4: [[0, 0, 1, 1], [0, 1, 0, 1], [0, 0, 0, 1], [0, 1, 1, 1], [0, 0, 1, 2], [0, 1, 0, 2], [0, 1, 2, 1],
+                         [0, 1, 1, 0], [0, 0, 0, 0], [0, 1, 2, 3]]}
+
+    def _gen_glue_params(self, rng, n, opts=None, shape=None):
+        """n parameter sets (one per evidence file): a base set, 1-2 fields varied (each field in turn), the values of a
+        varied field all equal / all different / PARTLY REPEATED (trypsin, trypsin, lys-c) -- the shape in which a list
+        with its repeated values dropped has neither length one nor length n"""
+        opts = opts or self.GLUE_OPTS
+        base = {k: rng.choice(v) for k, v in opts.items()}
+        if base["min"] > base["max"]:
+            base["min"] = min(opts["min"])
+        dg = [dict(base) for _ in range(n)]
+        shape = shape or rng.choice(["partly", "partly", "partly", "different", "equal"] if n >= 3 else ["different", "different", "equal"])
+        pats = self.GLUE_PATTERNS[n]
+        if shape == "partly":
+            pats = [q for q in pats if 1 < len(set(q)) < n]
+        elif shape == "different":
+            pats = [q for q in pats if len(set(q)) == n]
+        else:
+            pats = [q for q in pats if len(set(q)) == 1]
+        for k in rng.sample(sorted(opts), rng.choice([1, 1, 1, 2, 3])):
+            pat = rng.choice(pats)
+            pat = [v for v in pat]
+            vals = rng.sample(opts[k], min(len(opts[k]), max(pat) + 1))
+            for i in range(n):
+                dg[i][k] = vals[pat[i] % len(vals)]
+        for p in dg:
+            if p["min"] > p["max"]:
+                p["min"], p["max"] = p["max"], p["min"]
+        return dg
+
+    def gen_glue(self, rng):
+        n = rng.choice([1, 2, 3, 3, 3, 4, 4])
+        opts = dict(self.GLUE_OPTS)
+        if rng.random() < 0.2:
+            opts["enzyme"] = opts["enzyme"] + ["no_enzyme"]
+        if rng.random() < 0.15:
+            opts["special"] = opts["special"] + [""]
+        dg = self._gen_glue_params(rng, n, opts)
+        for p in dg:
+            p["decoys"] = rng.random() < 0.1
+        return {"params": dg, "flag": rng.random() < 0.2}
+
+    def gen_pipeline_run(self, rng):
+        """pipeline.run_picked_group_fdr on 1-4 MaxQuant evidence files, one DigestionParams object per file (mostly
+        3-4 files with partly repeated values); the database has no explicit decoys (the pipeline functions never pass
+        --fasta_contains_decoys)"""
+        n = rng.choice([1, 2, 3, 3, 3, 3, 4, 4])
+        run = {"methods": ["picked_protein_group_mq_input"], "inputs": {}, "fasta": None, "decoys_in_fasta": False,
+               "digest": [], "maps": [], "via": "pipeline"}
+        while True:
+            fa, dec = self._gen_fasta(rng)
+            if not dec:
+                break
+        run["fasta"] = fa
+        opts = {"enzyme": ["trypsin", "lys-c", "trypsinp", "arg-c"], "mc": [0, 1, 2], "min": [5, 6, 10], "max": [60, 15, 10],
+                "special": ["KR", "none"], "mode": ["full", "semi"]}
+        if rng.random() < 0.12:
+            opts["enzyme"] = opts["enzyme"] + ["no_enzyme"]
+        run["digest"] = self._gen_glue_params(rng, n, opts)
+        if n > 1 and rng.random() < 0.08:
+            run["digest"] = run["digest"][:1]  # one object for all files
+        bares = self._run_bares(rng, run)
+        for _ in range(5):
+            files = self._gen_files(rng, "maxquant", bares, n)
+            if all(len(f) > 0 for f in files):
+                break
+        run["inputs"]["maxquant"] = {"mokapot": False, "colseed": rng.randint(0, 999), "files": files,
+                                     "names": gen_cli.file_names(rng, n, "mq")}
+        run["fasta_names"] = gen_cli.file_names(rng, len(run["fasta"]), "fasta")
+        return run
+
     def gen_run(self, rng, via):
         nm = rng.choice([1, 1, 2, 2, 2, 3])
         ms = self._pick_methods(rng, nm, rng.random() < 0.75)
@@ -1531,33 +1713,7 @@ class P(Prop):
         if use_fasta:
             run["fasta"], run["decoys_in_fasta"] = self._gen_fasta(rng)
             run["digest"] = self._gen_digest(rng, nmaps)
-            own = own_digest_maps(run)
-            maps = [map_view(m) for m in own]
-            known = [m.known(16) for m in maps]
-            union = sorted(set().union(*known)) if maps else []
-            short = [k for k in union if len(k) <= 16] or union
-            diff = [k for k in short if not all(k in kn for kn in known)]
-            common = [k for k in short if all(k in kn for kn in known)]
-            decoy = [k for k in short if any(o_decoy_list(m.get(k)) for m, kn in zip(maps, known) if k in kn)]
-            bares = []
-            for pool, k in ((diff, rng.choice([1, 2, 3])), (common, rng.choice([1, 2])), (decoy, 1)):
-                for b in rng.sample(pool, min(len(pool), k)):
-                    if b not in bares:
-                        bares.append(b)
-            if any(is_hash(m) for m in own):
-                # peptides contained in no sequence whose first six residues occur in the database, short ones, ...
-                hp = self._hash_pool(rng, [m for m in own if is_hash(m)])
-                pick = [q for t, q in hp if t.startswith("unknown_")]
-                pick = rng.sample(pick, min(len(pick), rng.choice([1, 2])))
-                pick += [q for t, q in rng.sample(hp, min(len(hp), 2))]
-                for b in pick:
-                    if b not in bares:
-                        bares.append(b)
-            unknown = [b for b in BARE + ["NAQQKAAAAK"] if b not in union]
-            if unknown and (rng.random() < 0.5 or len(bares) < 2):
-                bares.append(rng.choice(unknown))
-            while len(bares) < 2:
-                bares.append(rng.choice([b for b in BARE if b not in bares]))
+            bares = self._run_bares(rng, run)
         else:
             bares = rng.sample(BARE, rng.choice([2, 3, 3, 4]))
             if remaps or rng.random() < 0.3:
@@ -1603,6 +1759,8 @@ class P(Prop):
             return run_shared(case["shared"])
         if "run" in case:
             return run_scenario(case["run"])
+        if "glue" in case:
+            return run_glue(case["glue"])
         if "lookup" in case:
             from picked_group_fdr import digest
 
@@ -1662,6 +1820,11 @@ class P(Prop):
             return {"op": "c10_strops", "strings": [case["strops"]]}
         if "lookup" in case:
             return {"op": "c10_lookup", "map": model_map(case["lookup"]["map"]), "peptides": case["lookup"]["peptides"]}
+        if "glue" in case:
+            g = case["glue"]
+            return {"op": "c10_glue", "flag": bool(g.get("flag")),
+                    "params": [{"enzyme": p["enzyme"], "digestion": p["mode"], "min": p["min"], "max": p["max"], "mc": p["mc"],
+                                "special": p["special"], "decoys": bool(p.get("decoys"))} for p in g["params"]]}
         if "shared" in case:
             sh = case["shared"]
             return [self._ingest_req(dict(c, maps=sh["maps"])) for c in sh["calls"]]
@@ -1692,6 +1855,8 @@ class P(Prop):
             return {"strops": resp["out"][0]} if isinstance(resp, dict) and "out" in resp else resp
         if "lookup" in case:
             return {"lookup": resp["out"]} if isinstance(resp, dict) and "out" in resp else resp
+        if "glue" in case:
+            return {k: resp[k] for k in ("given", "argv", "parsed")} if isinstance(resp, dict) and "argv" in resp else resp
         if "shared" in case:
             return {"shared": [self._model_pil(r) for r in resp]}
         if "run" in case:
@@ -1710,6 +1875,8 @@ class P(Prop):
     def impl_view(self, case, impl_out):
         if "lookup" in case and isinstance(impl_out, dict) and "lookup" in impl_out:
             return {"lookup": impl_out["lookup"]}
+        if "glue" in case and isinstance(impl_out, dict) and "argv" in impl_out:
+            return {k: impl_out[k] for k in ("given", "argv", "parsed")}
         if "shared" in case and isinstance(impl_out, dict) and "shared" in impl_out:
             return {"shared": [o["pil"] if "pil" in o else {"err": o.get("err")} for o in impl_out["shared"]]}
         if "run" in case and isinstance(impl_out, dict) and "fwd" in impl_out:
@@ -1734,6 +1901,8 @@ class P(Prop):
             return self.shared_oracle(case["shared"], impl_out)
         if "run" in case:
             return self.run_oracle(case["run"], impl_out)
+        if "glue" in case:
+            return self.glue_oracle(case["glue"], impl_out)
         if isinstance(impl_out, dict) and "exc" in impl_out:
             return "ingestion raised %s: %s where a peptide list was expected" % (impl_out["exc"], impl_out.get("msg", ""))
         want, info = expected(case)
@@ -1743,6 +1912,33 @@ class P(Prop):
         if not isinstance(impl_out, dict) or "pil" not in impl_out:
             return "no peptide list returned: %r" % (impl_out,)
         return self.judge(want, impl_out["pil"], info)
+
+    @staticmethod
+    def glue_oracle(g, out):
+        """'several evidence files each with its own digestion parameters': the parameter sets the tool works with after
+        the pipeline handed it the caller's objects as arguments are the caller's -- as many as were given, the i-th with
+        the values of the i-th object (enzyme, digestion mode, length window, missed cleavages, special residues and what
+        follows from them); a single set that arrives is the set of every file (the tool builds one digest for all
+        files), which is right when all files were given equal values.  `db` is not judged: the arguments do not carry it (a flag of its own decides it)."""
+        if not isinstance(out, dict) or "given" not in out:
+            return "glue failed: %r" % (out,)
+        given, parsed = out["given"], out.get("parsed")
+        n = len(given)
+        vals = lambda k: " ".join(repr(x[k]) for x in given)
+        if isinstance(parsed, dict):
+            return "%d parameter sets (enzyme %s) rendered as `%s`: the tool refuses them: %s" % (
+                n, vals("enzyme"), " ".join(out.get("argv", [])), parsed.get("err") or parsed.get("msg"))
+        if len(parsed) == 1 and n > 1:
+            parsed = parsed * n  # one set that arrives serves every file (one digest for all): fine if all files share it
+        if len(parsed) != n:
+            return "%d parameter sets (one per evidence file) rendered as `%s`: %d parameter sets arrive in the tool" % (
+                n, " ".join(out.get("argv", [])), len(parsed))
+        for i, (a, b) in enumerate(zip(given, parsed)):
+            for k in ("enzyme", "digestion", "min", "max", "mc", "special", "met", "hash"):
+                if a[k] != b[k]:
+                    return "parameter set %d of %d: %s = %r given (all files: %s), %r arrives in the tool (arguments `%s`)" % (
+                        i + 1, n, k, a[k], vals(k), b[k], " ".join(out.get("argv", [])))
+        return None
 
     @staticmethod
     def lookup_oracle(lk, out):
@@ -1946,6 +2142,9 @@ class P(Prop):
             v = HashView(case["lookup"]["map"])
             res = [v.lookup(q) for q in case["lookup"]["peptides"]]
             return any(c and j for c, j in res) and any(not c and v.prefix_owners(q) for (c, j), q in zip(res, case["lookup"]["peptides"]))
+        if "glue" in case:
+            ps = case["glue"]["params"]
+            return len(ps) >= 3 and any(1 < len({str(p[k]) for p in ps}) < len(ps) for k in ("enzyme", "mode", "min", "max", "mc", "special"))
         if "shared" in case:
             sh = case["shared"]
             exps = [expected(dict(c, maps=sh["maps"])) for c in sh["calls"]]
@@ -1998,6 +2197,24 @@ class P(Prop):
                 if j and c and any(o_is_decoy_id(p) for p in c) and not all(o_is_decoy_id(p) for p in c):
                     f.add("lookup:in_target_and_decoy_sequence")
             return sorted(f)
+        if "glue" in case:
+            ps = case["glue"]["params"]
+            f = ["glue", "glue_params=%d" % len(ps)]
+            for k in ("enzyme", "mode", "min", "max", "mc", "special"):
+                d = len({str(p[k]) for p in ps})
+                if d > 1:
+                    f.append("glue_%s:%s" % (k, "all_different" if d == len(ps) else "partly_repeated"))
+            if all(p == ps[0] for p in ps) and len(ps) > 1:
+                f.append("glue_all_equal")
+            if case["glue"].get("flag"):
+                f.append("glue_fasta_contains_decoys_flag")
+            if any(p.get("decoys") for p in ps):
+                f.append("glue_object_built_with_fasta_contains_decoys")
+            if any(p["special"] in ("none", "") for p in ps):
+                f.append("glue_no_special_residues")
+            if any(p["enzyme"] == "no_enzyme" for p in ps):
+                f.append("glue_no_enzyme")
+            return f
         if "shared" in case:
             sh = case["shared"]
             ns = [len(c["files"]) for c in sh["calls"]]
@@ -2025,6 +2242,13 @@ class P(Prop):
                 for m in run["methods"]:
                     if fmt_of(method_score_type(m), False)[1]:
                         f += ["run_non_specific:" + k for k in sorted(expected(sub_case(run, m, maps))[1]["hash"])]
+            if run.get("via") == "pipeline":
+                dg = run["digest"]
+                f.append("pipeline_params=%d" % len(dg))
+                for _, k in DIGEST_FLAGS:
+                    d = len({str(p[k]) for p in dg})
+                    if d > 1:
+                        f.append("pipeline_%s:%s" % (k, "all_different" if d == len(dg) else "partly_repeated"))
             if run.get("fasta") and len(maps) > 1:
                 f.append("run_per_file_digestion_params")
                 f += ["run_varies=" + k for _, k in DIGEST_FLAGS if len({str(p[k]) for p in eff_digest(run)}) > 1]
@@ -2107,6 +2331,21 @@ class P(Prop):
                     yield {"lookup": dict(lk, peptides=lk["peptides"][:i] + lk["peptides"][i + 1:])}
             for m2 in self._shrink_hash(lk["map"]):
                 yield {"lookup": dict(lk, map=m2)}
+            return
+        if "glue" in case:
+            g = case["glue"]
+            ps = g["params"]
+            for i in range(len(ps)):
+                if len(ps) > 1:
+                    yield {"glue": dict(g, params=ps[:i] + ps[i + 1:])}
+            if g.get("flag"):
+                yield {"glue": dict(g, flag=False)}
+            for k in ("decoys", "enzyme", "mode", "min", "max", "mc", "special"):
+                if len({str(p.get(k)) for p in ps}) > 1:
+                    yield {"glue": dict(g, params=[dict(p, **{k: ps[0].get(k)}) for p in ps])}
+            for k, v in (("decoys", False), ("enzyme", "trypsin"), ("mode", "full"), ("min", 7), ("max", 60), ("mc", 2), ("special", "KR")):
+                if len({str(p.get(k)) for p in ps}) == 1 and ps[0].get(k) != v:
+                    yield {"glue": dict(g, params=[dict(p, **{k: v}) for p in ps])}
             return
         if "shared" in case or "run" in case:
             # the engine keeps any candidate on which the oracle still fails; a case in which some method ingests
